@@ -75,7 +75,9 @@ PROPS['C15'] = {
     'technique': 're-init injected after every prefix of a dirtying history x all 49 ordered variant pairs; lock-step differential against a fresh manager',
     'level_text': 'For all 49 ordered (old, new) variant pairs a re-initialisation is injected after every call (thorough; quick: every 4th call plus the 4/5/8/9/15-jobs-parked points) of a history that parks up to 15 jobs of unequal lengths in every out-of-order lane manager; after each re-init the manager must report empty and an 8-batch probe (1..17 jobs per lane manager, unequal lengths) must hand back exactly what a freshly allocated manager hands back, job for job.',
     'level_note': 'Behavioural oracle only (no image comparison, so dead stale bytes do not alarm). Flags are changed through imb_set_pointers_mb_mgr(ptr, flags, 0) when old and new variant need different flags.',
-    'drivers': [{'name': 'c15', 'src': ['props/c15.c'] + ALG, 'cfgs': ['std'], 'args': ''}],
+    'drivers': [{'name': 'c15', 'src': ['props/c15.c'] + ALG, 'cfgs': ['std'], 'args': ''},
+                # second history: round-robin over the units, every lane manager partially occupied at the same time
+                {'name': 'c15', 'src': ['props/c15.c'] + ALG, 'cfgs': ['std'], 'args': 'h1'}],
     'deadline': {'quick': 900, 'thorough': 3000},
     'assumptions': ['probe of 8 batch sizes x 4 lengths per lane manager is what "all subsequent behaviour" is bounded to'],
 }
